@@ -50,6 +50,9 @@ type c05Params struct {
 	// InboundCut > 0: the transport ends that many bytes before the end of the
 	// inbound message: its read must fail (C04: no silent truncation).
 	InboundCut int
+	// Repeat: all messages of one writer consist of the same byte (different lengths), so
+	// that a compressor which keeps its context refers back to the previous message
+	Repeat bool
 	// GiveUp: once the first bytes are on the wire, a Ping whose context is
 	// cancelled at 500 ms waits for the frame lock (and gives up).
 	GiveUp bool
@@ -107,7 +110,11 @@ func c05Setup(prm c05Params) func(c *fw.Ctx, name string) explore.Setup {
 					for _, ch := range op.Chunks {
 						n += ch
 					}
-					st.msgs = append(st.msgs, &wres{task: ti, idx: mi, payload: fill(byte(0xA0+ti*4+mi), n), text: op.Text})
+					tag := byte(0xA0 + ti*4 + mi)
+					if prm.Repeat {
+						tag = byte(0xA0 + ti*4)
+					}
+					st.msgs = append(st.msgs, &wres{task: ti, idx: mi, payload: fill(tag, n), text: op.Text})
 				}
 			}
 			w.GoHarness("main", true, func() {
@@ -597,6 +604,11 @@ func c05Scenarios(tier string) []scenario {
 		scs = append(scs, scenario{Name: name, Cfg: tierCfg(tier, quick, thorough), Setup: c05Setup(prm)})
 	}
 	P := func(p int) explore.Config { return explore.Config{P: p, T: 0, E: 0, Horizon: 60e9} }
+	// asymmetric agreements (only one side promised to reset its compressor): each writer's
+	// second message repeats its first, so the two ends must agree on who keeps a context
+	for _, k := range []connCfg{{Client: true, Flate: true, Thr: 1, CNCT: true}, {Client: false, Flate: true, Thr: 1, CNCT: true}, {Client: true, Flate: true, Thr: 1, SNCT: true}, {Client: false, Flate: true, Thr: 1, SNCT: true}} {
+		add(c05Params{Name: "W3r", K: k, Repeat: true, Writers: [][]wop{{{Chunks: []int{300}}, {Chunks: []int{301}}}, {{Text: true, Chunks: []int{302}}, {Stream: true, Text: true, Chunks: []int{150, 153}}}}}, P(1), P(2)) // (the library's compressor only looks back over more than ~128 bytes)
+	}
 	for _, k := range roles {
 		big := 5000
 		// W2: a 10-byte Write against a Write whose frame spans two transport writes
@@ -662,6 +674,8 @@ func c05RaceScenarios(tier string) []scenario {
 		return strings.HasPrefix(n, "echo-reader-eof/") || strings.HasPrefix(n, "echo-closeread/")
 	})
 	extra(c16Scenarios(tier), func(n string) bool { return strings.HasPrefix(n, "peer-w2/") || strings.HasPrefix(n, "closeread-w1/") })
+	// two connections read through wsjson at the same time (the pooled buffer of one must not be in use by the other)
+	extra(c19Scenarios(tier), func(n string) bool { return strings.HasPrefix(n, "pool-none/") || strings.HasPrefix(n, "pool-valid/") })
 	return out
 }
 
